@@ -84,6 +84,20 @@ Definition chk_copy2 (W : world N) (pre : list (op N)) (ns1 : dict N) (k : str)
   let st1 := st_push (st_push (ctx_copy st ns1) []) [(k_w_, Data 90%N)] in
   option_eqb value_eqb (st_lookup (st_push (ctx_copy st1 []) []) k) inner
   && option_eqb value_eqb (st_lookup st k) outer.
+Definition chk_copy3 (W : world N) (pre : list (op N)) (ns1 : dict N) (k : str)
+    (inner outer : option (value N)) : bool :=
+  let st := state_of (exec_list 30 pre (st_push (build_base W) [])) in
+  let c1 := st_assign (st_push (ctx_copy st ns1) []) k (Data 70%N) in
+  let c2 := st_push (st_push (ctx_copy c1 []) []) [(k_w_, Data 90%N)] in
+  option_eqb value_eqb (st_lookup (st_push (ctx_copy c2 []) []) k) inner
+  && option_eqb value_eqb (st_lookup st k) outer.
+Definition chk_copy_blk (W : world N) (pre : list (op N)) (k : str)
+    (inner outer : option (value N)) : bool :=
+  let st := state_of (exec_list 30 pre (st_push (build_base W) [])) in
+  let blk := ctx_copy_block st [kv k_block (vD 101)] in
+  let c1 := st_push (st_push (ctx_copy blk []) []) [(k_w_, Data 90%N)] in
+  option_eqb value_eqb (st_lookup (st_push (ctx_copy c1 []) []) k) inner
+  && option_eqb value_eqb (st_lookup st k) outer.
 Definition chk_block (W : world N) (bind : dict N) (ops : list (op N)) (k : str)
     (exp : list (obs N)) (after : option (value N)) : bool :=
   let st0 := st_push (build_base W) [] in
@@ -348,7 +362,13 @@ class Prog:
                 args = "".join(f", {k}: {self.lit(v)}" for k, v in n[1])
                 out.append("{% include '" + name + "'" + args + " %}")
             elif t == "lambda":
-                out.append("{{ (7..9) | find: " + n[1] + " => " + n[1] + " == 8 }}" + SEP)
+                # an arrow function given to a filter that stops at the first match (early exit:
+                # 8 is the second of three items); one- and two-parameter forms
+                filt = n[3] if len(n) > 3 else "find"
+                if len(n) > 2 and n[2]:
+                    out.append("{{ (7..9) | " + filt + ": (" + n[1] + ", " + n[2] + ") => " + n[1] + " == 8 }}" + SEP)
+                else:
+                    out.append("{{ (7..9) | " + filt + ": " + n[1] + " => " + n[1] + " == 8 }}" + SEP)
             elif t == "liquid":
                 # {% liquid %} line statements: assign + echo
                 out.append("{% liquid assign " + n[1] + " = " + self.lit(n[2]) + "\n echo " + self.out_expr(n[1]) + " %}" + SEP)
@@ -377,7 +397,10 @@ class Prog:
             elif t == "include":
                 out.append(("extend", list(n[1]), [("extend", [], self.ops(n[2]))]))
             elif t == "lambda":
-                out.append(("extend", [(n[1], ("I", 8))], []))
+                if len(n) > 2 and n[2]:
+                    out.append(("extend", [(n[2], ("I", 1)), (n[1], ("I", 8))], []))
+                else:
+                    out.append(("extend", [(n[1], ("I", 8))], []))
             elif t == "liquid":
                 out += [("assign", n[1], n[2]), ("lookup", n[1])]
         return out
@@ -418,7 +441,10 @@ def api_world(S: str, name: str, vals: dict[str, tuple] | None = None) -> dict[s
             "ra": [(name, v["R"])] if "R" in S else []}
 
 
-SHAPES = ["plain", "for", "capture", "assign_in_block", "include", "nested", "lambda", "liquid", "render", "render2", "render_with", "extends_block"]
+SHAPES = ["plain", "for", "capture", "assign_in_block", "include", "nested", "lambda", "liquid", "render", "render2", "render_with", "extends_block",
+          "lambda2", "lambda_for", "render3", "render2_in_block"]
+LAMBDA_SHAPES = ("lambda", "lambda2", "lambda_for")
+RENDER_SHAPES = ("render", "render2", "render_with", "extends_block", "render3", "render2_in_block")
 
 
 def api_program(S: str, name: str, shape: str, vals: dict[str, tuple] | None = None) -> tuple[list[tuple], list[tuple]]:
@@ -452,6 +478,15 @@ def api_program(S: str, name: str, shape: str, vals: dict[str, tuple] | None = N
         body = [("with", bind, [("for", "q", [out, ("include", [], [out])])])]
     elif shape == "lambda":
         body = [("lambda", "z"), ("with", bind, [("lambda", name), out])] if B else [("lambda", name), out]
+    elif shape in ("lambda2", "lambda_for"):
+        # early-exit arrow functions whose parameters are named like the looked-up name:
+        # two-parameter form with the name as item parameter, as index parameter, and the
+        # one-parameter form, under find / has / find_index; each followed by a look-up
+        seq = [("lambda", name, "z", "find"), out, ("lambda", "z", name, "has"), out,
+               ("lambda", name, None, "find_index"), out, ("lambda", name, "q", "find_index"), out]
+        if shape == "lambda_for":
+            seq = [("for", "q", seq)]
+        body = [("with", bind, seq)] if B else seq
     elif shape == "liquid":
         inner = ([("liquid", name, v["L"])] if "L" in S else []) + [out]
         body = [("with", bind, inner)] if B else inner
@@ -483,6 +518,29 @@ def run_api(S: str, shape: str, path: int, none_for_empty: bool,
         P.partials["base"] = opener[0] + "{% block b %}{% endblock %}" + opener[1] + "{{ " + P.out_expr(name) + " }}" + SEP
         src = "{% extends 'base' %}{% block b %}" + P.src(pre) + "{{ " + P.out_expr(name) + " }}" + SEP + "{% endblock %}"
         part_matter = {"base": {name: "v8"}}
+        nodes = None
+    elif shape == "render2_in_block":
+        # render -> render below an overriding block: the page's locals (assigned in the base
+        # template before the block) and counters must be invisible two isolated levels down
+        pre, _ = api_program(S, name, "plain", vals)
+        ns = []
+        P.partials["r"] = "{{ " + P.out_expr(name) + " }}" + SEP
+        P.partials["r1"] = "{% with w_: 'v90' %}{% render 'r' %}{% endwith %}"
+        P.partials["base"] = P.src(pre) + "{% block b %}{% endblock %}{{ " + P.out_expr(name) + " }}" + SEP
+        src = "{% extends 'base' %}{% block b %}{% render 'r1' %}{% endblock %}"
+        part_matter = {"r": {name: "v8"}, "r1": {name: "v8"}, "base": {name: "v8"}}
+        nodes = None
+    elif shape == "render3":
+        # three levels of isolation: the outer tag's arguments and the middle partial's own
+        # locals must be invisible in the innermost partial
+        pre, _ = api_program(S, name, "plain", vals)
+        ns = [(name, lv["B"])] if "B" in S else []
+        args = "".join(f", {k}: {P.lit(v)}" for k, v in ns)
+        P.partials["r"] = "{{ " + P.out_expr(name) + " }}" + SEP
+        P.partials["r1"] = "{% with w_: 'v90' %}{% render 'r' %}{% endwith %}"
+        P.partials["r3"] = "{% assign " + name + " = 'v70' %}{% render 'r1' %}"
+        src = P.src(pre) + "{% render 'r3'" + args + " %}" + "{{ " + P.out_expr(name) + " }}" + SEP
+        part_matter = {"r": {name: "v8"}, "r1": {name: "v8"}, "r3": {name: "v8"}}
         nodes = None
     elif shape in ("render", "render2", "render_with"):
         pre, _ = api_program(S, name, "plain", vals)
@@ -546,7 +604,7 @@ def run_api(S: str, shape: str, path: int, none_for_empty: bool,
     if t.global_data is env.globals or (tg and t.global_data is tg):
         problems.append("template.global_data aliases a caller mapping (make_globals did not allocate)")
     return {"name": name, "world": w, "pre": pre, "nodes": nodes, "prog": P, "src": src, "segs": segs,
-            "partials": dict(P.partials), "problems": problems, "ns": ns if shape in ("render", "render2", "render_with", "extends_block") else None}
+            "partials": dict(P.partials), "problems": problems, "ns": ns if shape in RENDER_SHAPES else None}
 
 
 def spec_value(S: str, visible: str, vals: dict[str, tuple] | None = None) -> tuple | None:
@@ -582,7 +640,7 @@ def part_a(chk: C.Check, thorough: bool) -> list[dict[str, Any]]:
             replay["layer_values"] = {k: FALSY_NAME.get(v, str(v)) for k, v in vals.items()}
         for p in r["problems"]:
             chk.finding("api:" + p[:40], p, replay)
-        if shape in ("render", "render2", "render_with", "extends_block"):
+        if shape in RENDER_SHAPES:
             segs = r["segs"]
             ok_shape = len(segs) == (3 if "C" not in S else 4) and segs[-1] == ""
             if not ok_shape:
@@ -590,7 +648,7 @@ def part_a(chk: C.Check, thorough: bool) -> list[dict[str, Any]]:
                 return
             inner, outer = dec(segs[-3]), dec(segs[-2])
             # oracle: inside the partial the parent's locals and counters are invisible
-            want_in = spec_value(S, "RMTEU" if shape == "render2" else "BRMTEU", vals)
+            want_in = spec_value(S, "RMTEU" if shape in ("render2", "render3", "render2_in_block") else "BRMTEU", vals)
             want_out = spec_value(S, "LRMTEUC", vals)
             wheres = ("inside {% render %}", "after {% render %}")
             if shape == "extends_block":
@@ -616,6 +674,12 @@ def part_a(chk: C.Check, thorough: bool) -> list[dict[str, Any]]:
                     stats["falsy_value_won"][FALSY_NAME[want]] = stats["falsy_value_won"].get(FALSY_NAME[want], 0) + 1
             case = (f"{'chk_copy2' if shape == 'render2' else 'chk_copy'} {cworld(r['world'])} {cops(r['prog'].ops(r['pre']))} {cdict(r['ns'])} "
                     f"{ck(name)} {coval(inner)} {coval(outer)}")
+            if shape == "render3":
+                case = (f"chk_copy3 {cworld(r['world'])} {cops(r['prog'].ops(r['pre']))} {cdict(r['ns'])} "
+                        f"{ck(name)} {coval(inner)} {coval(outer)}")
+            if shape == "render2_in_block":
+                case = (f"chk_copy_blk {cworld(r['world'])} {cops(r['prog'].ops(r['pre']))} "
+                        f"{ck(name)} {coval(inner)} {coval(outer)}")
             if shape == "extends_block":
                 bops = r["prog"].ops(r["pre"]) + [("lookup", name)]
                 btrace = [("C", int(segs[0]) if re.fullmatch(r"-?\d+", segs[0]) else 12345)] if "C" in S else []
@@ -647,8 +711,8 @@ def part_a(chk: C.Check, thorough: bool) -> list[dict[str, Any]]:
             want_first = spec_value(S, LAYERS, vals)
             if shape == "for" and "B" in S and not (vals and "B" in vals):
                 want_first = ("I", 7)  # the block binding is the loop item
-            for got, want, where in ((first, want_first, "in the block"),
-                                     (last, spec_value(S, "LRMTEUC", vals), "after the block")):
+            checks = [(g_[2], want_first, "in the block") for g_ in looks[:-1]] if len(looks) > 2 else [(first, want_first, "in the block")]
+            for got, want, where in checks + [(last, spec_value(S, "LRMTEUC", vals), "after the block")]:
                 g = ("U",) if got in (("N",), ("T",)) else got
                 if g != want:
                     chk.finding("precedence:" + where, f"layers {S}{' values ' + str(replay['layer_values']) if vals else ''}, shape {shape}: {name} resolved to {got}, the documented order gives {want} {where}", replay)
@@ -666,6 +730,8 @@ def part_a(chk: C.Check, thorough: bool) -> list[dict[str, Any]]:
         S = "".join(l for i, l in enumerate(LAYERS) if bits >> i & 1)
         for si, shape in enumerate(SHAPES):
             paths = (0, 1, 2) if thorough else ((bits + si) % 3,)
+            if not thorough and shape in LAMBDA_SHAPES:
+                paths = ((bits + si) % 2, 2)  # early-exit arrow functions: always sync AND async
             for path in paths:
                 one(S, shape, path, bool((bits + si + path) % 2))
 
@@ -1750,7 +1816,7 @@ def main(chk: C.Check, build: C.Build) -> None:
         "distinct_nontrivial_parts": {"A": nontrivial_a, "B": nontrivial_b, "D": nontrivial_d, "E": nontrivial_e},
         "rule": ("A: every one of the 2^8 subsets of the eight layers binds one name (x, or now/today when the built-in layer is in the subset) "
                  "to distinct values through Environment(globals) / get_template|from_string(globals, matter) / render(args) / assign / "
-                 "with|for|include block / increment, in 11 program shapes (quick: one API path per case in rotation; thorough: all three); "
+                 "with|for|include block / increment, in 16 program shapes (quick: one API path per case in rotation; thorough: all three); "
                  "B: the same 256 subsets plus seeded random nested operation sequences on a real RenderContext; C: random ReadOnlyChainMap "
                  "histories; E: caching loaders that supply matter (dict-backed, and file-system backed with front matter), every one of the 2^8 "
                  "subsets, the template fetched 3 times (with its globals, without, with other globals), every fetch rendered twice, "
